@@ -1,4 +1,5 @@
 pub mod big;
+pub mod laws;
 pub mod result;
 pub mod segpair;
 pub mod stage;
@@ -155,6 +156,49 @@ pub fn spec(id: &str, tier: Tier) -> Option<Spec> {
             families: pair_families(tier, 8_000, 1_000_000, false, false),
             spaces: vec![],
             check: Box::new(stage::c15),
+            assumptions,
+            want_c: false,
+        },
+        "C06" => Spec {
+            id: "C06",
+            rule: "robust-domain operand pairs (no self-crossing rings). Swap: ring multisets of op(A,B) and op(B,A) for intersection/union/xor (bitwise on exact families; region fallback on inexact ones). Self: A-A and A xor A empty, A∩A and A∪A equal A as regions, and as ring multisets when no two rings of A touch. Empty operand: nine identities, results bit-identical to the inputs. Disjoint boxes: B translated beyond A's box, results bit-identical combinations of the inputs. Touching boxes (exact families): B translated so that its leftmost vertex sits on A's rightmost vertex; region oracle for all operations and ring multisets when the contact is a single vertex and no rings touch otherwise. Non-trivial: operands share a boundary segment, or A is non-empty (self laws).",
+            design_ref: "§5 C06",
+            families: pair_families(tier, 16_000, 2_000_000, false, false),
+            spaces: match tier {
+                Tier::Quick => vec![rect_pair_space("all bitmap pairs on the 2x2 unit grid", 2, 2)],
+                Tier::Thorough => vec![rect_pair_space("all bitmap pairs on the 3x2 unit grid", 3, 2)],
+            },
+            check: Box::new(|c, o| laws::c06(c, o, Prec::F64)),
+            assumptions,
+            want_c: false,
+        },
+        "C07" => Spec {
+            id: "C07",
+            rule: "robust-domain operand pairs; each operand is rewritten (every ring started at a random vertex, reversed independently, 0-2 vertices repeated consecutively, closing vertex possibly repeated, holes and parts rotated/reversed in order) and all 4 operations are run on both forms: exact families must give identical ring and polygon multisets, inexact families the same region (and the rewritten result must satisfy the membership oracle); when an operand is a single polygon all applicable trait implementations must return the identical MultiPolygon. Non-trivial: the rewriting changed the byte representation and the base case is C01-non-trivial.",
+            design_ref: "§5 C07",
+            families: pair_families(tier, 16_000, 2_000_000, false, false),
+            spaces: vec![],
+            check: Box::new(|c, o| laws::c07(c, o, Prec::F64)),
+            assumptions,
+            want_c: false,
+        },
+        "C08" => Spec {
+            id: "C08",
+            rule: "robust-domain operand pairs, per case: one scaling of both operands by 2^k (k in [-40,40], no overflow/underflow) compared bit for bit with the scaled result for all 4 operations; one integer translation (|t| <= 1e6) on the integer-lattice families compared bit for bit; three of the seven non-identity axis symmetries, for which the result of the transformed operands must satisfy the membership oracle and equal the transformed result as a region. Non-trivial: base case C01-non-trivial and some result non-empty.",
+            design_ref: "§5 C08",
+            families: pair_families(tier, 12_000, 1_500_000, false, false),
+            spaces: vec![],
+            check: Box::new(|c, o| laws::c08(c, o, Prec::F64)),
+            assumptions,
+            want_c: false,
+        },
+        "C09" => Spec {
+            id: "C09",
+            rule: "robust-domain operand pairs, per case: (1) a rectangle 4096 magnitudes away to the left/right/above/below added to A or to B: ring multiset of the result = ring multiset of the base result plus the part exactly when it contributes (union, xor, subject part under difference); (2) far-right parts added to both operands so that intersection/difference cannot stop early; (3) the same near geometry through the bounding-box shortcut (B moved away) and through the sweep (a tall far part on A re-overlaps the boxes). Ring multisets compared bitwise; where the shortcut hands back rings of operands whose rings touch each other, regions are compared instead. Non-trivial: base case C01-non-trivial and the extra part changes the sweep's right bound, lies to the left, or flips the box test.",
+            design_ref: "§5 C09",
+            families: pair_families(tier, 16_000, 2_000_000, false, false),
+            spaces: vec![],
+            check: Box::new(|c, o| laws::c09(c, o, Prec::F64)),
             assumptions,
             want_c: false,
         },
